@@ -11,7 +11,10 @@ Inductive fstate := F_DONE | F_CANCELED | F_FAILED.
 Inductive aev :=
 | Lifetime (has_runtime exceeded : bool)   (* idle callback _check_lifetime *)
 | CancelPilots (mine : bool)               (* control cmd cancel_pilots, uids contain this pilot or not *)
-| Terminate.                               (* control cmd terminate -> stop() *)
+| Terminate                                (* control cmd terminate -> stop() *)
+| ServiceInfo (known error : bool)         (* control cmd service_info: for the service being launched or not, startup failed or not *)
+| Heartbeat (mine : bool)                  (* control cmd pmgr_heartbeat *)
+| OtherCmd.                                (* any other control command: logged and ignored *)
 
 (* Agent_0.stop: keeps a cause that was already recorded *)
 Definition astop (c : cause) : cause :=
@@ -24,6 +27,9 @@ Definition astep (c : cause) (e : aev) : cause :=
   | CancelPilots true => astop CCancel     (* sets 'cancel', then stop() *)
   | CancelPilots false => c
   | Terminate => astop c
+  | ServiceInfo _ _ => c                   (* a failing service is logged; it does not end the pilot *)
+  | Heartbeat _ => c
+  | OtherCmd => c
   end.
 
 Definition arun (es : list aev) : cause := fold_left astep es CNone.
